@@ -148,6 +148,9 @@ THEOREMS = [("Kopf.Props.C11", "Kopf.C11." + n) for n in [
     "local_zone_west_hides_timeout",
     # stacked registrations (one function, one id, two reasons; f7d6401)
     "namesake_retries_bound_partial", "namesake_starts_from_scratch", "namesake_inherits_refused_witness",
+    # the record in several places of the object (MultiProgressStorage / the default smart storage; C11h)
+    "multi_fetch_first", "multi_fetch_none", "store_then_fetch", "places_run_is_run", "upgrade_run_is_run",
+    "upgrade_retries_bound_partial", "merged_fetch_exceeds_retries_witness", "merged_fetch_breaks_delay_witness",
 ]]
 RULE = ("grid: errors mode x default mode x timeout {None,0,10s,70s} x runtime band (before / look-ahead "
         "boundary -1q / boundary / T-1q / T / after) x call duration x retries {None,0,1,4} x stored retries "
@@ -170,7 +173,11 @@ RULE = ("grid: errors mode x default mode x timeout {None,0,10s,70s} x runtime b
         "record shapes x ages on both sides of the timeout; always complete), 40 % of the histories of every kind in a non-UTC process "
         "zone, 50 % of change/pair/sub histories with every progress record on the object re-spelled at each restart (1-3 spellings in "
         "turn; 60 % of them with an extra restart within the first three cycles = an upgrade in the middle of a retry series), 30 % long flavour (day-scale times, fractional timeouts), seven driver kinds; a case is distinct & non-trivial when its abstraction (limits "
-        "class, raised kind, which branch the outcome took, gate) is new and not the plain-success path")
+        "class, raised kind, which branch the outcome took, gate) is new and not the plain-success path"
+        "; 35 % of change/pair/sub histories with the progress storage RECONFIGURED between operator processes (17 supported pairs + 3 "
+        "triples of smart / annotations / status / Multi[annotations,status] / Multi[status,annotations], the switch early in a retry "
+        "series) and/or the status stanza no longer persisted from cycle k: records of one handler in several places, not all current"
+)
 TRUSTED = [
     "SimLoop virtual time + wall clock shim (harness/sim/simloop.py); times are multiples of 2**-6 s so that "
     "float seconds, microsecond datetimes and ISO strings are exact (rounding of timestamps is never exercised)",
@@ -185,6 +192,13 @@ TRUSTED = [
     "the next cycle happens, which version of the body it is shown and whether its patch lands is the adversary's choice",
 ]
 ASSUMPTIONS = [
+    "where a progress record stands on the object and which place has precedence is taken from docs/configuration.rst "
+    "(annotation kopf.zalando.org/{id}, status.kopf.progress.{id}; 'the first found state will be used when reading, i.e. the first "
+    "storage has precedence'): the harness reads the event body along these sentences itself (READS / own_fetch), never through the "
+    "configured storage's fetch(); the real fetch() is tied to the model's multiFetch by the driver op C11.fetch. A reconfiguration is "
+    "generated only when the documentation supports it (valid_reconfiguration: the new configuration looks first where the previous "
+    "one wrote); lost status writes only where the annotations are read first and not through the real process_changing_cause "
+    "(its purge would be lost too and the leftover read as a fallback by the next handling: the environment's doing)",
     "asyncio.CancelledError and non-Exception BaseExceptions escalate out of execute_handler_once and are not "
     "outcomes (out of the property's scope)",
     "kopf has no per-invocation timeout: `timeout=` is only checked before a call and in the look-ahead",
@@ -528,7 +542,53 @@ def mk_settings(default_backoff: int | None = None, storage: str = "smart") -> A
         settings.persistence.progress_storage = K.progress.AnnotationsProgressStorage()
     elif storage == "status":
         settings.persistence.progress_storage = K.progress.StatusProgressStorage()
+    elif storage == "multi":
+        settings.persistence.progress_storage = K.progress.MultiProgressStorage([
+            K.progress.AnnotationsProgressStorage(), K.progress.StatusProgressStorage()])
+    elif storage == "multi-rev":
+        settings.persistence.progress_storage = K.progress.MultiProgressStorage([
+            K.progress.StatusProgressStorage(), K.progress.AnnotationsProgressStorage()])
+    elif storage != "smart":
+        raise ValueError(storage)
     return settings
+
+
+# Where a handler's progress record stands on the object, per docs/configuration.rst ("Handling progress"): the
+# annotations `kopf.zalando.org/{id}` (A) and the status field `status.kopf.progress.{id}` (S); a storage of several
+# places: "all are written to in sync, but the first found state will be used when reading, i.e. the first storage has
+# precedence"; the default ("smart"): "annotations, plus read-only from the status stanza, with annotations taking
+# precedence over the status". The harness reads the object BY ITSELF along these sentences (never through the
+# configured storage's own fetch()): what a cycle starts from is judged, not inherited.
+READS = {"smart": "AS", "multi": "AS", "multi-rev": "SA", "status": "S", "annotations": "A"}
+WRITES = {"smart": "A", "multi": "AS", "multi-rev": "AS", "status": "S", "annotations": "A"}
+
+
+def read_place(place: str, hid: str, body: dict) -> dict | None:
+    if place == "A":
+        raw = ((body.get("metadata") or {}).get("annotations") or {}).get("kopf.zalando.org/" + hid.replace("/", "."))
+        return None if raw is None else json.loads(raw)
+    return (((body.get("status") or {}).get("kopf") or {}).get("progress") or {}).get(hid)
+
+
+def own_fetch(storage_kind: str, hid: str, body: dict) -> dict | None:
+    for place in READS[storage_kind]:
+        got = read_place(place, hid, body)
+        if got is not None:
+            return got
+    return None
+
+
+def valid_reconfiguration(kinds: list[str]) -> bool:
+    """A sequence of storage configurations (one per operator process) that the documentation supports: every new
+    configuration finds the records of the previous one where it looks FIRST among the places that may hold a record
+    (else the operator's owner has told it to prefer a place with leftovers, or none: not kopf's fault)."""
+    ever: set[str] = set()
+    for prev, new in zip(kinds, kinds[1:]):
+        ever |= set(WRITES[prev])
+        first = next((pl for pl in READS[new] if pl in ever), None)
+        if first is None or first not in WRITES[prev]:
+            return False
+    return True
 
 
 def mk_handler(kind: str, hid: str, fn: Any, l: dict, **extra: Any) -> Any:
@@ -1265,6 +1325,51 @@ def gen_ambient(rng: random.Random, h: dict) -> None:
             long = h.get("flavour") == "long"
             down = rng.choice([0, 1, 64, 640, 6400] + ([3600 * 64, 86400 * 64] if long else []))
             h["plan"].insert(rng.choice([0, 0, 1, 2]), ["restart", down])
+    if "plan" in h and not h.get("env") and rng.random() < 0.35:
+        gen_reconfigured(rng, h)
+
+
+# every supported pair; of the triples only those in which every place read before the complete one holds nothing but
+# current records (a record is re-stored only when it changes: after a middle process a place may hold a part of them)
+RECONFIGURATIONS = [k for k in itertools.product(sorted(READS), repeat=2) if valid_reconfiguration(list(k)) and len(set(k)) > 1] + \
+    [("status", "multi", "smart"), ("status", "multi-rev", "smart"), ("annotations", "multi", "smart")]
+
+
+def gen_reconfigured(rng: random.Random, h: dict) -> None:
+    """Records of one handler in SEVERAL places of the object, not all of them current: the operator is restarted
+    with another progress storage in the middle of a retry series (the upgrade from the status-only releases to the
+    default annotations+status-fallback one; a transitional MultiProgressStorage before or after; every sequence of
+    the five configurations that the documentation supports: `valid_reconfiguration`), and/or the API server stops
+    persisting the status stanza at some cycle while the annotations go on (only where the annotations are read
+    first). What the lower-priority place still holds is then an OLDER record of the same handler."""
+    long = h.get("flavour") == "long"
+    if rng.random() < 0.8:
+        kinds = list(rng.choice(RECONFIGURATIONS))
+        if rng.random() < 0.4:
+            kinds = rng.choice([["status", "smart"], ["status", "multi"], ["multi", "smart"], ["status", "multi", "smart"]])
+        h["storages"] = kinds
+        h["storage"] = kinds[0]
+        have = [i for i, st in enumerate(h["plan"][:4]) if st[0] == "restart"]
+        for _ in range(max(0, len(kinds) - 1 - len(have))):
+            down = rng.choice([0, 1, 64, 640] + ([3600 * 64] if long else []))
+            h["plan"].insert(rng.choice([0, 0, 1, 2]), ["restart", down])
+    else:
+        h["storage"] = "multi"
+    # (not through the real process_changing_cause: its purge of a finished handling would be lost on the status as
+    # well, and the leftover then read as a fallback record of the NEXT handling — the environment's doing)
+    if not h.get("proc") and all(READS[k][0] == "A" for k in (h.get("storages") or [h["storage"]])) and rng.random() < (0.5 if h.get("storages") else 1.0):
+        h["status_lost_from"] = rng.choice([0, 1, 1, 2, 3])
+    if rng.random() < 0.7:
+        # the series is still open when the places diverge: the function fails in its first calls, within its limits
+        k = rng.choice([2, 3, 4])
+        for hd in h["handlers"]:
+            if hd["id"] == "p":
+                continue
+            hd["script"] = [[rng.choice([["temporary", rng.choice([Q, TPS, 3 * TPS])], ["temporary", TPS], ["arbitrary"]]), 0]
+                            for _ in range(k)] + hd["script"]
+            if rng.random() < 0.7:
+                hd["limits"].update(errors=rng.choice([None, "temporary"]), retries=rng.choice([None, k, k + 1, k + 2]),
+                                    timeout=rng.choice([None, None, 90 * TPS, DAY]))
 
 
 def gen_history_plain(rng: random.Random, kind: str | None = None) -> dict:
@@ -1427,8 +1532,8 @@ class ChangeWorld:
 
     def __init__(self, hist: dict) -> None:
         self.hist = hist
-        self.settings = mk_settings(hist["default_backoff"], hist["storage"])
-        self.storage = self.settings.persistence.progress_storage
+        self.fetches: list[dict] = []
+        self.use_process(0)
         self.body: dict = {"apiVersion": "kopf.dev/v1", "kind": "KopfExample",
                            "metadata": {"name": "obj", "namespace": "ns", "uid": "u1", "resourceVersion": "1"},
                            "spec": {"x": 1}}
@@ -1478,6 +1583,42 @@ class ChangeWorld:
         self.writes = {h["id"]: 0 for h in hist["handlers"]}
         self.versions: list[tuple[dict, dict]] = [(copy.deepcopy(self.body), dict(self.writes))]
         self.kill: int | None = None
+
+    def use_process(self, i: int) -> None:
+        """The i-th operator process of the history: its configured progress storage (an upgrade or a reconfiguration
+        between two processes changes where the records are written and in which order the places are read)."""
+        kinds = self.hist.get("storages") or [self.hist["storage"]]
+        self.storage_kind = kinds[min(i, len(kinds) - 1)]
+        self.settings = mk_settings(self.hist["default_backoff"], self.storage_kind)
+        self.storage = self.settings.persistence.progress_storage
+
+    def server_side(self, after: dict) -> dict:
+        """What the API server keeps of a patched object: from the cycle `status_lost_from` on, changes of the status
+        stanza sent with the object's patch are not persisted (the resource got a structural schema that prunes the
+        unknown field, or its status became a sub-resource) — the status keeps what it held."""
+        k = self.hist.get("status_lost_from")
+        if k is not None and self.cycles > k:
+            after = dict(after)
+            if "status" in self.body:
+                after["status"] = copy.deepcopy(self.body["status"])
+            else:
+                after.pop("status", None)
+        return after
+
+    def note_fetch(self, t: int) -> None:
+        """Correspondence of the reading rule: the real storage's fetch() of every handler's record on the event
+        body against the model's `multiFetch` over the places as the harness reads them."""
+        if len(READS[self.storage_kind]) < 2 or len(self.fetches) >= 8:
+            return
+        for hd in self.hist["handlers"]:
+            places = [read_place(pl, hd["id"], self.view_body) for pl in READS[self.storage_kind]]
+            if sum(p is not None for p in places) < 2 and self.fetches:
+                continue
+            got = self.storage.fetch(key=hd["id"], body=K.bodies.Body(self.view_body))
+            entry = {"hid": hd["id"], "now": t, "places": [rec_of_stored(p) for p in places],
+                     "impl": rec_of_stored(dict(got)) if got is not None else None}
+            if entry not in self.fetches:
+                self.fetches.append(entry)
 
     def reg_of(self, handler: Any) -> int:
         return next(i for i, o in enumerate(self.top) if o is handler)
@@ -1563,7 +1704,8 @@ class ChangeWorld:
                                    "patch": copy.deepcopy(dict(self.cause.patch))})
 
     def fetch(self, hid: str, body: dict | None = None) -> dict | None:
-        got = self.storage.fetch(key=hid, body=K.bodies.Body(self.body if body is None else body))
+        # the harness's own reading (READS), not the configured storage's
+        got = own_fetch(self.storage_kind, hid, self.body if body is None else body)
         return rec_of_stored(dict(got)) if got is not None else None
 
     async def cycle_proc(self) -> float | None:
@@ -1590,6 +1732,7 @@ class ChangeWorld:
             memo=K.ephemera.Memo(), initial=bool(self.hist.get("cause_initial")), reason=reason)
         lifecycle = K.lifecycles.asap if self.hist.get("lifecycle") == "asap" else K.lifecycles.all_at_once
         t = now_ticks()
+        self.note_fetch(t)
         peeks = {h.id: self.scripts[h.id].peek() for h in self.top}
         batches: list[dict] = []
         def on_batch(entry: dict) -> None:
@@ -1608,7 +1751,7 @@ class ChangeWorld:
             raise Escaped("process_changing_cause", e) from e
         if self.escaped is not None:
             raise Escaped("kopf.execute (sub-handlers)", self.escaped)
-        after = merge_patch(copy.deepcopy(self.body), dict(patch))
+        after = self.server_side(merge_patch(copy.deepcopy(self.body), dict(patch)))
         zero = {h["id"]: 0 for h in self.hist["handlers"]}
         for b in batches:
             # the handler OBJECTS the code selected: of two registrations under one id only one is there
@@ -1644,6 +1787,7 @@ class ChangeWorld:
             resource=self.resource, indices=self.indexers.indices, logger=K.logger, patch=patch, body=body,
             memo=K.ephemera.Memo(), initial=False, reason=reason)
         t = now_ticks()
+        self.note_fetch(t)
         state = K.progression.State.from_storage(body=body, storage=self.storage, handlers=self.top)
         state = state.with_purpose(reason).with_handlers(self.top)
         pre = {h.id: len(self.scripts[h.id].calls) for h in self.top}
@@ -1669,7 +1813,7 @@ class ChangeWorld:
         if self.escaped is not None:
             raise Escaped("kopf.execute (sub-handlers)", self.escaped)
         # the API server applies the merge-patch to the CURRENT object — unless the patch is lost
-        after = merge_patch(copy.deepcopy(self.body), dict(patch))
+        after = self.server_side(merge_patch(copy.deepcopy(self.body), dict(patch)))
         self.record_batch(self.top, t, merged, pre, before, peeks, outcomes,
                           {h.id: state[h.id].finished for h in self.top}, after, views, stored, awake)
         wrote = [h.id for h in self.top if h.id in outcomes or (awake[h.id] and fresh[h.id])]
@@ -1780,7 +1924,7 @@ class ChangeWorld:
             self.versions[-1] = (copy.deepcopy(self.body), self.versions[-1][1])
 
     def stored_message(self, hid: str, body: dict | None = None) -> str:
-        got = self.storage.fetch(key=hid, body=K.bodies.Body(self.body if body is None else body))
+        got = own_fetch(self.storage_kind, hid, self.body if body is None else body)
         return str((got or {}).get("message") or "")
 
 
@@ -1835,6 +1979,7 @@ def run_change_history(hist: dict) -> dict:
                 state["restart"] = None
                 if world.proc:
                     world.memory = None
+                world.use_process(len(loops))
                 spellings = hist.get("respell") or []
                 if spellings:
                     world.respell(spellings[(len(loops) - 1) % len(spellings)])
@@ -1849,7 +1994,7 @@ def run_change_history(hist: dict) -> dict:
     return {"events": world.events, "limits": world.limits, "cycles": world.cycles, "subrecs": world.subrecs,
             "calls": {k: len(s.calls) for k, s in world.scripts.items()}, "closed": world.closed,
             "reg_limits": world.reg_limits, "switch_cycle": world.switch_cycle,
-            "reg_initial": [bool(h.initial) for h in world.top]}
+            "reg_initial": [bool(h.initial) for h in world.top], "fetches": world.fetches}
 
 
 @contextlib.contextmanager
@@ -2266,6 +2411,9 @@ def _history_checks(hist: dict, kind: str, db: int, env: dict) -> list[dict]:
                 checks.append(chk)
         if kind == "sub":
             checks += sub_parent_checks(hist, obs)
+        for f in obs.get("fetches") or []:
+            checks.append({"hid": f"{f['hid']}#fetch", "limits": {}, "events": [], "oracle": [],
+                           "request": ["C11.fetch", f["places"], f["now"]], "impl": f["impl"]})
         if multi:
             failed = any(evs and evs[-1].get("rec") and evs[-1]["rec"]["failure"] for evs in
                          ([e for e in es if e["ev"] == "attempt"] for es in obs["events"].values()))
@@ -2498,6 +2646,9 @@ def run_histories(ctx: Ctx, hists: list[dict], use_model: bool = True) -> None:
         ctx.count("history.zone", hist.get("zone") or "as the machine is (UTC)")
         if "plan" in hist:
             ctx.count("history.records_at_restart", "respelled: " + ",".join(hist["respell"]) if hist.get("respell") else "as kopf wrote them")
+        if "plan" in hist:
+            ctx.count("history.progress_storage", " -> ".join(hist.get("storages") or [hist["storage"]]) +
+                      (f", status writes lost from cycle {hist['status_lost_from']}" if hist.get("status_lost_from") is not None else ""))
         ctx.count("history.lifecycle", hist.get("lifecycle", "all_at_once") if hist["kind"] in ("change", "pair", "sub") else "n/a")
         if hist["kind"] in ("change", "pair", "sub"):
             st = hist.get("stacked")
